@@ -15,6 +15,7 @@ let err_string (e : Prune.walk_err option) : string = match e with
   | Some (Prune.WeMissing i) -> "missing:" ^ id_hex i
   | Some (Prune.WeErrno e) -> "errno:" ^ errno_string e
   | Some Prune.WeFuel -> "fuel"
+  | Some Prune.WeBlocked -> "blocked"
 
 let fuel = nat_of_int 64
 
